@@ -317,6 +317,10 @@ type snap struct {
 }
 
 func (w *hostWorld) snapshot() snap {
+	// let handlers that already answered finish their deferred budget rollback / commit
+	for i := 0; i < 2000 && w.node.Accounts.VerifMdmOpenBudgets() > 0; i++ {
+		time.Sleep(time.Millisecond)
+	}
 	c, err := w.node.Contracts.Contract(w.fcid)
 	if err != nil {
 		w.t.Fatal("snapshot contract:", err)
